@@ -245,34 +245,34 @@ def copy_history(cname, hist, acc):
     mk, mkfresh, xof = _C[cname]
     orig, clone = mk(), None
     mo, mc = b"", None
-    fo = fc = False      # XOF squeezed (no more updates)
+    ro = rc = 0          # XOF: bytes already squeezed (no more updates once > 0)
+    RD = 100             # XOF read size: the second read crosses the rate boundary (168 / 136 bytes)
     for i, op in enumerate(hist):
         acc.count("transitions")
         try:
-            if op == "uo" and orig is not None and not fo:
+            if op == "uo" and orig is not None and not ro:
                 orig.update(UA)
                 mo += UA
-            elif op == "uc" and clone is not None and not fc:
+            elif op == "uc" and clone is not None and not rc:
                 clone.update(UB)
                 mc += UB
-            elif op == "copy" and orig is not None and not fo:
-                clone = orig.copy()
-                mc, fc = mo, False
+            elif op == "copy" and orig is not None:
+                clone = orig.copy()          # also after read(): the clone continues the same output stream
+                mc, rc = mo, ro
             elif op in ("do", "dc"):
                 o, m = (orig, mo) if op == "do" else (clone, mc)
                 if o is None:
                     continue
                 if xof:
-                    if (fo if op == "do" else fc):
-                        continue
-                    got = o.read(20)
+                    r0 = ro if op == "do" else rc
+                    got = o.read(RD)
                     f = mkfresh()
                     f.update(m)
-                    exp = f.read(20)
+                    exp = f.read(r0 + RD)[r0:]
                     if op == "do":
-                        fo = True
+                        ro += RD
                     else:
-                        fc = True
+                        rc += RD
                 else:
                     got = o.digest()
                     f = mkfresh()
@@ -280,7 +280,7 @@ def copy_history(cname, hist, acc):
                     exp = f.digest()
                 if got != exp:
                     acc.violation("C19/copy/%s/%s-differs" % (cname, "orig" if op == "do" else "clone"),
-                                  "%s: history %s: %s digest is %s, one-shot over its own %d bytes gives %s"
+                                  "%s: history %s: %s output is %s, one-shot over its own %d bytes gives %s"
                                   % (cname, " ".join(hist[:i + 1]), "original" if op == "do" else "clone", short(got), len(m), short(exp)),
                                   {"part": "copy", "cls": cname, "hist": list(hist[:i + 1])}, size=i + 1)
                     return
